@@ -1,5 +1,115 @@
-import Gobptree.Ops
+/-
+  C12 — constructors accept exactly the powers of two ≥ 2.
+
+  `Generated.checkOrderGen` is REGENERATED from /repo/order.go on every run by
+  harness/cmd/gen_order (Go `int` = 64-bit two's complement): the theorem below is
+  about what the code says now.
+-/
+import Gobptree.Generated.CheckOrder
+import Gobptree.Proofs.RunOk
+
 namespace Gobptree
-theorem C12_placeholder : True := trivial
+
+/-- Signed `2 ≤ x` on 64-bit two's complement, in terms of `toNat`. -/
+theorem C12_sle_two_iff (x : BitVec 64) :
+    BitVec.sle (2#64) x = true ↔ 2 ≤ x.toNat ∧ x.toNat < 2 ^ 63 := by
+  have hx := x.isLt
+  simp only [BitVec.sle, BitVec.toInt_eq_toNat_cond, decide_eq_true_eq]
+  simp only [BitVec.toNat_ofNat]
+  split <;> omega
+
+theorem C12_toNat_sub_one (x : BitVec 64) (h : 1 ≤ x.toNat) :
+    (x - 1#64).toNat = x.toNat - 1 := by
+  have hx := x.isLt
+  rw [BitVec.toNat_sub]
+  simp only [BitVec.toNat_ofNat]
+  omega
+
+theorem C12_and_eq_zero_iff (x : BitVec 64) (h : 1 ≤ x.toNat) :
+    ((x &&& (x - 1#64)) == 0#64) = true ↔ x.toNat &&& (x.toNat - 1) = 0 := by
+  rw [beq_iff_eq, ← BitVec.toNat_inj, BitVec.toNat_and, C12_toNat_sub_one x h]
+  simp
+
+/-- **C12 (validation).** `checkOrder(order) == nil` exactly for the powers of two
+    `2^1 … 2^62` (the positive powers of two representable in a Go `int`). -/
+theorem C12_checkOrder (x : BitVec 64) :
+    Generated.checkOrderGen x = true ↔ ∃ n : Nat, 1 ≤ n ∧ n ≤ 62 ∧ x = BitVec.ofNat 64 (2 ^ n) := by
+  unfold Generated.checkOrderGen
+  rw [Bool.and_eq_true, C12_sle_two_iff]
+  constructor
+  · rintro ⟨⟨h2, h63⟩, hand⟩
+    rw [C12_and_eq_zero_iff x (by omega),
+      Nat.and_sub_one_eq_zero_iff_isPowerOfTwo (by omega)] at hand
+    obtain ⟨n, hn⟩ := hand
+    rw [hn] at h2 h63
+    have hn63 : n < 63 := (Nat.pow_lt_pow_iff_right (by decide)).1 h63
+    have hn1 : 1 ≤ n := by
+      rcases Nat.eq_zero_or_pos n with h0 | h0
+      · subst h0; simp at h2
+      · exact h0
+    refine ⟨n, hn1, by omega, ?_⟩
+    apply BitVec.eq_of_toNat_eq
+    rw [BitVec.toNat_ofNat, hn]
+    exact (Nat.mod_eq_of_lt (Nat.pow_lt_pow_right (by decide) (by omega))).symm
+  · rintro ⟨n, hn1, hn62, rfl⟩
+    have hlt : 2 ^ n < 2 ^ 64 := Nat.pow_lt_pow_right (by decide) (by omega)
+    have htn : (BitVec.ofNat 64 (2 ^ n)).toNat = 2 ^ n := by
+      rw [BitVec.toNat_ofNat]; exact Nat.mod_eq_of_lt hlt
+    have hge : 2 ^ 1 ≤ 2 ^ n := Nat.pow_le_pow_right (by decide) hn1
+    have hlt63 : 2 ^ n < 2 ^ 63 := Nat.pow_lt_pow_right (by decide) (by omega)
+    refine ⟨⟨by rw [htn]; exact hge, by rw [htn]; exact hlt63⟩, ?_⟩
+    rw [C12_and_eq_zero_iff _ (by rw [htn]; omega), htn,
+      Nat.and_sub_one_eq_zero_iff_isPowerOfTwo (by omega)]
+    exact ⟨n, rfl⟩
+
+
+/-- an accepted order, as the natural number the tree stores -/
+theorem C12_accepted_shape (x : BitVec 64) (hacc : Generated.checkOrderGen x = true) :
+    2 ≤ x.toNat ∧ x.toNat % 2 = 0 ∧ ∃ n, 1 ≤ n ∧ x.toNat = 2 ^ n := by
+  obtain ⟨n, h1, h62, hx⟩ := (C12_checkOrder x).mp hacc
+  have hlt : 2 ^ n < 2 ^ 64 := Nat.pow_lt_pow_right (by decide) (by omega)
+  have htn : x.toNat = 2 ^ n := by rw [hx, BitVec.toNat_ofNat, Nat.mod_eq_of_lt hlt]
+  obtain ⟨m, rfl⟩ : ∃ m, n = m + 1 := ⟨n - 1, by omega⟩
+  refine ⟨?_, ?_, m + 1, h1, htn⟩
+  · rw [htn, Nat.pow_succ]; have : 1 ≤ 2 ^ m := Nat.one_le_two_pow; omega
+  · rw [htn, Nat.pow_succ]; omega
+
+/-- **C12 (construction).** On acceptance the constructor's tree is empty and satisfies the
+    invariant, and the accepted order meets the hypotheses (`2 ≤ order`, `order` even) under
+    which C01/C05/C08 are proved: the dependence of splitting on an even order is discharged
+    by the validation itself. -/
+theorem C12_new {K V : Type} (lt : K → K → Bool) (x : BitVec 64) (hacc : Generated.checkOrderGen x = true) :
+    TreeInv lt (Tree.new x.toNat : Tree K V) ∧ (Tree.new x.toNat : Tree K V).abs = [] ∧
+    (Tree.new x.toNat : Tree K V).order = x.toNat ∧ 2 ≤ x.toNat ∧ x.toNat % 2 = 0 := by
+  obtain ⟨h2, hev, _⟩ := C12_accepted_shape x hacc
+  obtain ⟨hinv, hnil⟩ := new_ok (lt := lt) (K := K) (V := V) x.toNat
+  exact ⟨hinv, by rw [Tree.abs_eq_pairs]; exact hnil, rfl, h2, hev⟩
+
+/-- **C12 (rejection).** Zero, negative and odd orders and every other non-power of two are
+    rejected (no tree is built: the driver and the Go constructors return before allocating). -/
+theorem C12_rejects (x : BitVec 64) (hn : ¬ ∃ n : Nat, 1 ≤ n ∧ n ≤ 62 ∧ x = BitVec.ofNat 64 (2 ^ n)) :
+    Generated.checkOrderGen x = false := by
+  cases hc : Generated.checkOrderGen x with
+  | false => rfl
+  | true => exact absurd ((C12_checkOrder x).mp hc) hn
+
+/-- **C12 (independence).** Trees are values: an operation on one tree cannot change another
+    (the model has no state outside the `Tree` value; that the implementation has no
+    package-level state and allocates a fresh root per constructor call is an extracted
+    fact, checked on the sources on every run). -/
+theorem C12_independent {K V : Type} (P : Params K) (t1 t2 : Tree K V) (op : Op K V) :
+    ∀ r, (do let r1 ← t1.step P op; pure (r1, t2) : R ((Tree K V × Out V) × Tree K V)) = .ok r → r.2 = t2 := by
+  intro r hr
+  simp only [bind, Except.bind, pure, Except.pure] at hr
+  split at hr
+  · exact absurd hr (by simp)
+  · simp only [Except.ok.injEq] at hr; rw [← hr]
+
 end Gobptree
-#print axioms Gobptree.C12_placeholder
+
+#print axioms Gobptree.C12_checkOrder
+
+#print axioms Gobptree.C12_accepted_shape
+#print axioms Gobptree.C12_new
+#print axioms Gobptree.C12_rejects
+#print axioms Gobptree.C12_independent
